@@ -175,9 +175,18 @@ def cli_env(extra=None):
     return env
 
 
-def phyclone_cli(args, env, timeout=600):
+def phyclone_cli(args, env, timeout=600, fsize_limit=None):
+    """fsize_limit: RLIMIT_FSIZE of the child - no file of the process can grow beyond that many bytes (writes fail with
+    EFBIG; bytes already in a file are left alone), the operating system's own 'disk full at byte N'."""
+    pre = None
+    if fsize_limit is not None:
+        import resource
+
+        def pre():
+            resource.setrlimit(resource.RLIMIT_FSIZE, (int(fsize_limit), int(fsize_limit)))
+
     return subprocess.run([harness.PYTHON, "-c", "from phyclone.cli import main; main()"] + args, env=env,
-                          stdout=subprocess.PIPE, stderr=subprocess.STDOUT, timeout=timeout, text=True)
+                          stdout=subprocess.PIPE, stderr=subprocess.STDOUT, timeout=timeout, text=True, preexec_fn=pre)
 
 
 def writer_fault_task(task):
@@ -218,10 +227,25 @@ def writer_fault_task(task):
             n = max(0, n) if task.get("cumulative") else max(0, min(size - 1, n))
             for mode in task["modes"]:
                 out = os.path.join(tmp, "cut_%d_%s.pkl.gz" % (n, mode))
+                if task.get("preexisting"):
+                    # the output path already holds the complete trace of an earlier run (another seed): an interrupted
+                    # re-run into the same path must not leave that one readable as its result
+                    old_args = [("8" if a == "7" and base[i - 1] == "--seed" else a) for i, a in enumerate(base)]
+                    pre = phyclone_cli(old_args + ["-o", out], cli_env())
+                    if pre.returncode != 0:
+                        part.inconc("earlier run for the pre-existing trace failed")
+                        continue
+                    part.count("writer_faults_over_an_existing_trace")
                 marker = os.path.join(tmp, "fault_%d_%s.marker" % (n, mode))
                 env = cli_env({"VERIF_WRITE_FAULT": json.dumps({"at": n, "mode": mode, "cumulative": bool(task.get("cumulative")),
                                                                 "marker": marker})})
-                p = phyclone_cli(base + ["-o", out], env)
+                if task.get("preexisting"):
+                    # fault by file-size limit: what is already in the file stays as it is, nothing can be written past byte n
+                    p = phyclone_cli(base + ["-o", out], cli_env(), fsize_limit=n)
+                    if p.returncode != 0:
+                        open(marker, "w").write("file size limit hit\n")
+                else:
+                    p = phyclone_cli(base + ["-o", out], env)
                 part.count("evaluations")
                 if not os.path.exists(marker):
                     # the run wrote fewer bytes than the fault position (one write of the trace only): nothing was cut
@@ -236,7 +260,7 @@ def writer_fault_task(task):
                                    {"mode": mode, "cut_at": n, "file_size": size})
                 left = os.path.getsize(out) if os.path.exists(out) else None
                 part.count("writer_left_%s" % ("nothing" if left is None else ("prefix" if left <= n else "more")))
-                if left is not None and left > n:
+                if left is not None and left > n and not task.get("preexisting"):
                     part.inconc("failpoint did not cut the write where requested (%d > %d)" % (left, n))
                 if left is None:
                     continue
@@ -376,6 +400,9 @@ def run(ctx):
         # in more than one pass is cut in its later passes too)
         wt += [{"kind": "writer", "seed": ctx.seed + 2, "chains": 1, "clustered": True, "cumulative": True, "cuts": [c], "modes": [m]}
                for c in ((0.5, 1.4) if quick else (0.2, 0.9, 1.1, 1.4, 1.8, 1.99)) for m in ("kill", "enospc")]
+        # re-run into a path that already holds the complete trace of an earlier run, cut at the very start of the write
+        wt += [{"kind": "writer", "seed": ctx.seed + 3, "chains": 1, "preexisting": True, "cuts": [c], "modes": [m]}
+               for c in ((0, 7) if quick else (0, 3, 7, 12, 0.5)) for m in ("enospc",)]
         if not quick:
             wt += [{"kind": "writer", "seed": ctx.seed + 1, "chains": 2, "cuts": [c], "modes": [m]}
                    for c in (0.3, -5) for m in ("kill", "enospc")]
